@@ -195,7 +195,7 @@ func init() {
 		ID: "C06",
 		Meta: Meta{
 			Level: "fault_enumeration",
-			Rule: "each base case = one generated generic/network-driver session run fault-free to measure the L device bytes and W client writes of the exchange; then one run per loss point and kind: end-of-stream after byte k and persistent non-EOF read error after byte k for k in 0..L (every k thorough, stride of <= 40 points quick), write error at write w for every w < W; idle periods place some losses between operations; non-trivial = the loss actually fired; distinct = distinct (scenario shape incl. loss point/kind, interleaving digest)",
+			Rule:  "each base case = one generated generic/network-driver session run fault-free to measure the L device bytes and W client writes of the exchange; then one run per loss point and kind: end-of-stream after byte k and persistent non-EOF read error after byte k for k in 0..L (every k thorough, stride of <= 40 points quick), write error at write w for every w < W; idle periods place some losses between operations; non-trivial = the loss actually fired; distinct = distinct (scenario shape incl. loss point/kind, interleaving digest)",
 			Components: map[string]string{
 				"real": "scrapligo channel read loop and Errs/readLoopExited signalling, all read-until loops, generic and network drivers, transport wrapper, util.Queue",
 				"stub": "SimTransport with eof/readerr/writeerr faults, CLI device model, fake clock, seeded controller; a panic in any library goroutine kills the worker process and is attributed to the run in flight",
